@@ -167,12 +167,25 @@ class Body:
         if d["pl"]["p"]:
             return None
         l = d["pl"]["l"]
-        for s in reversed(self.blocks[bb]["stmts"]):
+        stmts = self.blocks[bb]["stmts"]
+        for i in range(len(stmts) - 1, -1, -1):
+            s = stmts[i]
             if s["sk"] == "assign" and s["pl"]["l"] == l:
                 if not s["pl"]["p"] and s["rv"]["rk"] == "use":
                     op = s["rv"]["ops"][0]
                     if op.get("k") == "const" and "int" in op and "uneval" not in op:
                         return int(op["int"])
+                if not s["pl"]["p"] and s["rv"]["rk"] == "discr" and not s["rv"]["pl"]["p"]:
+                    # discriminant of a value built just above from a literal variant
+                    src = s["rv"]["pl"]["l"]
+                    for k in range(i - 1, -1, -1):
+                        s2 = stmts[k]
+                        if s2["sk"] == "assign" and s2["pl"]["l"] == src:
+                            rv = s2["rv"]
+                            if not s2["pl"]["p"] and rv["rk"] == "agg" and rv.get("ak") == "adt" and "vidx" in rv \
+                                    and rv["adt"] in ("std::option::Option", "std::result::Result"):
+                                return rv["vidx"]
+                            return None
                 return None
         return None
 
